@@ -100,8 +100,10 @@ impl Report {
     /// Writes evidence and replay files, prints the verdict lines, returns the process exit code.
     pub fn finish(mut self) -> i32 {
         let known = load_known();
-        let evidence_dir = format!("{}/evidence", verif_dir());
-        let replay_dir = format!("{}/evidence/replays", verif_dir());
+        // VERIF_EVIDENCE_DIR: used by the seeded-change runner so that runs against a deliberately
+        // broken tree do not overwrite the evidence of the real tree
+        let evidence_dir = std::env::var("VERIF_EVIDENCE_DIR").unwrap_or_else(|_| format!("{}/evidence", verif_dir()));
+        let replay_dir = format!("{}/replays", evidence_dir);
         let _ = std::fs::create_dir_all(&replay_dir);
 
         let mut known_hits: BTreeMap<String, usize> = BTreeMap::new();
